@@ -47,7 +47,7 @@ pub fn run_one(a: &Args, seed: u64, w: &mut NdWriter, id_base: &mut usize) -> Ru
     let max_round = a.u64("maxround", 40);
     let mut rng = Rng::new(seed);
     let honest: Vec<usize> = (0..n).filter(|i| !absent.contains(i)).collect();
-    w.write(&json!({"t":"reset","n":n,"stakes":cfg.stakes,"honest":honest,"seed":seed}));
+    w.write(&json!({"t":"reset","n":n,"stakes":cfg.stakes,"honest":honest,"seed":seed,"leaders":crate::rig::leader_table(&cfg, 128)}));
     let mut rig = Rig::with_base(cfg, *id_base);
     let mut pool: Vec<Frame> = Vec::new();
     let mut st = RunStats {
